@@ -1,7 +1,8 @@
 (* C19 -- Stream vectorisation covers every link exactly once, split at confluences. *)
 From Coq Require Import List Arith ZArith QArith Bool.
 Import ListNotations.
-From PF Require Import Arr Net Rank Stream Vect VectSpec.
+From Coq Require Import Permutation.
+From PF Require Import Arr Net Rank Stream Vect VectSpec VectOnce.
 Local Open Scope Z_scope.
 
 (* cutting a stream into pieces (for every length and every max_len): the pieces' links, in order, are
@@ -26,6 +27,16 @@ Theorem swalk_spec : forall ds nup fuel cur, let '(dn, vs, pit) := swalk ds nup 
   dn = (if pit then vs else removelast vs).
 Proof. exact VectSpec.swalk_spec. Qed.
 Print Assumptions swalk_spec.
+
+(* THE GLOBAL STATEMENT.  links F = all consecutive vertex pairs of all features, in order.  For every network, every
+   topological order, every downstream-closed stream mask and EVERY max_len: the features' links are a permutation of
+   { (c, ds c) : c an ordered cell of the mask } -- every link of the masked network lies in exactly one feature, no
+   feature contains anything else, and every masked pit p contributes its zero-length link (p, p) exactly once. *)
+Theorem links_once : forall ds sq mask max_len, topo ds sq ->
+  (forall i, valid ds i -> mget mask i = true -> mget mask (dsf ds i) = true) ->
+  Permutation (links (streams ds sq mask max_len)) (map (link ds) (filter (mget mask) (rev sq))).
+Proof. exact VectOnce.links_once. Qed.
+Print Assumptions links_once.
 
 (* non-vacuity: a Y network 1 -> 0 <- 2, 3 -> 1 ; streams [3;1;0], [2;0], the single-vertex [0] (dropped by features), [0;0]; cutting 5 vertices at max_len 2 *)
 Example streams_example : streams [0;0;0;1]%nat [0;1;2;3]%nat None 0 = [[3;1;0]; [2;0]; [0]; [0;0]]%nat
